@@ -254,8 +254,15 @@ def check(ck):
         # kernel asserts present (the equalities the bounds proof used)
         # no raw pointer arithmetic / casts
         for c2 in calls_in(fn):
-            if call_name(c2) == '__cy_cast__':
-                ck.bad('C13.D1.no-pointers', mod, c2, kern, u(c2), 'typecast/pointer access inside a distance kernel')
+            if call_name(c2) in ('__cy_cast__', '__cy_addr__'):
+                ck.bad('C13.D1.no-pointers', mod, c2, kern, u(c2),
+                       'raw address / typecast inside a distance kernel: pointer arithmetic ignores the strides of the '
+                       'typed buffer, so Fortran-ordered and column-sliced inputs are read from the wrong cells')
+        for nm, t in fn.cy_locals.items():
+            if getattr(t, 'pointer', False):
+                ck.bad('C13.D1.no-pointers', mod, fn, kern, 'cdef %s %s' % (t.text, nm),
+                       'a raw C pointer is declared in a distance kernel: every element access must go through the typed '
+                       'buffer (which honours strides for every memory layout)')
     ck.floor('C13.D1.bounds', nb, 12, 'bounds obligations')
     ck.floor('C13.D2.prange', np_, 6, 'prange loops')
     ck.floor('C13.D3.zero-first', nz, 4, 'accumulations')
